@@ -267,7 +267,12 @@ def v4(run, ven):
     for name in shared:
         def seq(t):
             g = CFG(t.func(name), t)
-            return [(n.kind, stmt_text(n.ast)) for n in sorted(g.nodes, key=lambda x: -x.id) if n.ast is not None]
+            nodes = list(g.nodes.values()) if isinstance(g.nodes, dict) else list(g.nodes)
+            order = {n.id: i for i, n in enumerate(sorted(nodes, key=lambda x: x.id))}
+            # statement text AND shape: every node with its labelled successors (positions in creation order), so that a statement moved
+            # into or out of a branch is a difference even though the statement list reads the same
+            return [(n.kind, stmt_text(n.ast) if n.ast is not None else '', tuple(sorted((order.get(t_, -1), str(l)) for t_, l in n.succ)))
+                    for n in sorted(nodes, key=lambda x: x.id)]
         a, b = seq(tu), seq(w)
         diff = next(((x, y) for x, y in zip(a, b) if x != y), None) or ((len(a), len(b)) if len(a) != len(b) else None)
         run.ob('V4/shared-runtime-helpers-are-identical', name, 'vengine_cpy.cffimod_header ~ _cffi_include.h', diff is None, 'src/cffi/vengine_cpy.py',
